@@ -253,23 +253,57 @@ def runPAD (toks : List String) : String :=
     | _, _ => "bad-op"
   | _ => "bad-op"
 
-/-- `EST T0 ; adv ns ; upd pos ; reseteta ; q` → the rate at every `q` (time in ns, estimator created at T0) -/
+/-- `f64 as u64` / `as u32` of Rust: truncation, saturating, NaN ↦ 0 -/
+def secsToDurationNs (s : Float) : Nat :=
+  let secs := s.floor.toUInt64.toNat          -- `s ≥ 0` wherever this is used
+  let nanos := ((s - s.floor) * 1000000000.0).toUInt32.toNat
+  secs * 1000000000 + nanos
+
+/-- `Duration::saturating_add` with `Duration::MAX` = (2^64-1) s + 999_999_999 ns -/
+def durSatAdd (a b : Nat) : Nat := min (a + b) ((2 ^ 64 - 1) * 1000000000 + 999999999)
+
+def perSecE (w : Estimator.EW Float) (now : Nat) : Float :=
+  if w.finished then Float.ofNat w.pos / (Float.ofNat ((now - w.started) / 1000000000) + Float.ofNat ((now - w.started) % 1000000000) / 1000000000.0)
+  else Estimator.stepsPerSecond Estimator.floatOps w.est now
+
+def etaE (w : Estimator.EW Float) (now : Nat) : Nat :=
+  if w.finished then 0 else
+  match w.len with
+  | none => 0
+  | some len =>
+    let sps := Estimator.stepsPerSecond Estimator.floatOps w.est now
+    if sps == 0.0 then 0 else secsToDurationNs (Float.ofNat (len - w.pos) / sps)
+
+/-- `EST t0 len|none ; adv n ; upd p ; inc d ; setpos p ; reseteta ; resetelapsed ; reset ; finish ; len l|none ; q ; eta ; dur ; el` -/
 def runEstimator (rest : String) : String :=
   match rest.splitOn ";" with
   | hdr :: ops =>
-    match (hdr.trimAscii.toString).toNat? with
-    | none => "bad-op"
-    | some t0 =>
-      let o := Estimator.floatOps
-      let (_, _, outs) := ops.foldl (fun (acc : Estimator.Est Float × Nat × List String) (s : String) =>
-        let (e, now, outs) := acc
-        match (s.trimAscii.toString.splitOn " ").filter (· ≠ "") with
-        | ["adv", n] => (e, now + n.toNat!, outs)
-        | ["upd", p] => (Estimator.record o e p.toNat! now, now, outs)
-        | ["reseteta"] => (Estimator.reset o e now, now, outs)
-        | ["q"] => (e, now, outs ++ [toString (Estimator.stepsPerSecond o e now).toBits])
-        | _ => (e, now, outs ++ ["bad-op"])) (Estimator.new o t0, t0, [])
-      " ".intercalate outs
+    match (hdr.trimAscii.toString.splitOn " ").filter (· ≠ "") with
+    | [t0s, lens] =>
+      match t0s.toNat? with
+      | none => "bad-op"
+      | some t0 =>
+        let o := Estimator.floatOps
+        let w0 : Estimator.EW Float := { est := Estimator.new o t0, started := t0, gateStart := t0, len := lens.toNat? }
+        let (_, _, outs) := ops.foldl (fun (acc : Estimator.EW Float × Nat × List String) (s : String) =>
+          let (w, now, outs) := acc
+          match (s.trimAscii.toString.splitOn " ").filter (· ≠ "") with
+          | ["adv", n] => (w, now + n.toNat!, outs)
+          | ["upd", p] => (Estimator.step o w now (.upd p.toNat!), now, outs)
+          | ["inc", d] => (Estimator.step o w now (.inc d.toNat!), now, outs)
+          | ["setpos", p] => (Estimator.step o w now (.setPos p.toNat!), now, outs)
+          | ["reseteta"] => (Estimator.step o w now .resetEta, now, outs)
+          | ["resetelapsed"] => (Estimator.step o w now .resetElapsed, now, outs)
+          | ["reset"] => (Estimator.step o w now .reset, now, outs)
+          | ["finish"] => (Estimator.step o w now .finish, now, outs)
+          | ["len", l] => (Estimator.step o w now (.setLen l.toNat?), now, outs)
+          | ["q"] => (w, now, outs ++ [toString (perSecE w now).toBits])
+          | ["eta"] => (w, now, outs ++ [toString (etaE w now)])
+          | ["dur"] => (w, now, outs ++ [toString (if w.len.isNone || w.finished then 0 else durSatAdd (now - w.started) (etaE w now))])
+          | ["el"] => (w, now, outs ++ [toString (now - w.started)])
+          | _ => (w, now, outs ++ ["bad-op"])) (w0, t0, [])
+        " ".intercalate outs
+    | _ => "bad-op"
   | _ => "bad-op"
 
 def runBARGEO (args : List String) : String :=
